@@ -70,6 +70,7 @@ def main():
                 sh(["git", "-C", REPO, "checkout", "--", "."])
                 sh([sys.executable, str(VERIF / "tools" / "py2lean.py")])   # regenerated files follow /repo
                 sh([sys.executable, str(VERIF / "tools" / "py2lean_arith.py")])
+                sh([sys.executable, str(VERIF / "tools" / "py2lean_spec.py")])
             r["caught"] = any(v["exit"] == 1 for v in r["checks"].values())
             results.append(r)
             print(json.dumps(r))
